@@ -713,15 +713,15 @@ theorem perMinute_os (fuel : Nat) (sym : Nat) (real : Candle) (rest : List Candl
     split
     · exact OSame.refl _ _
     · have key : ∀ cur : Candle, OSame sym e
-          (match matchLoop u fuel e sym cur cands (chunkReselect sym real more) true with
+          (match matchLoop u fuel e sym cur cands (chunkReselect sym real c more) true with
            | (e1, cur') =>
              if e1.err.isSome then e1 else
              simulateChunk.perMinute u fuel sym real more (some c) (setCurrentPrice (addCandle e1 sym 1 c) sym cur'.c)
-               (if e1.log.length = e.log.length then cands else chunkReselect sym real more e1 cur')) := by
+               (if e1.log.length = e.log.length then cands else chunkReselect sym real c more e1 cur')) := by
         intro cur
-        have h := matchLoop_os u fuel e sym cur cands (chunkReselect sym real more) true
+        have h := matchLoop_os u fuel e sym cur cands (chunkReselect sym real c more) true
         revert h
-        generalize matchLoop u fuel e sym cur cands (chunkReselect sym real more) true = p
+        generalize matchLoop u fuel e sym cur cands (chunkReselect sym real c more) true = p
         intro h
         obtain ⟨e1, c'⟩ := p
         dsimp only at h ⊢
@@ -740,7 +740,7 @@ theorem simulateChunk_os (fuel : Nat) (e : Engine M) (sym : Nat) (cs : List Cand
     · rename_i real hreal
       have h1 : OSame sym e (if (executingOrders e sym real).length > 0 then
           simulateChunk.perMinute u fuel sym real cs none e
-            (if (executingOrders e sym real).length > 1 then sortExecutionOrders e (executingOrders e sym real) cs else executingOrders e sym real)
+            (if (executingOrders e sym real).length > 1 then sortExecutionOrders e (executingOrders e sym real) (fixChunk none cs) else executingOrders e sym real)
           else e) := by
         split
         · exact perMinute_os u fuel sym real cs _ _ _
@@ -748,7 +748,7 @@ theorem simulateChunk_os (fuel : Nat) (e : Engine M) (sym : Nat) (cs : List Cand
       revert h1
       generalize (if (executingOrders e sym real).length > 0 then
           simulateChunk.perMinute u fuel sym real cs none e
-            (if (executingOrders e sym real).length > 1 then sortExecutionOrders e (executingOrders e sym real) cs else executingOrders e sym real)
+            (if (executingOrders e sym real).length > 1 then sortExecutionOrders e (executingOrders e sym real) (fixChunk none cs) else executingOrders e sym real)
           else e) = e1
       intro h1
       split
